@@ -1278,6 +1278,8 @@ func main() {
 		var g strings.Builder
 		g.WriteString("/- GENERATED by harness/cmd/c09/extract from the closures of proj/{merc,lcc,aea,eqdc,tmerc,krovak}.go,\n   proj/aea.go aeaPhi1z and the straight-line methods of proj/datum.go.\n   Do not edit: rewritten from the current source on every check run (tie T1). -/\n")
 		g.WriteString("import GeomV.C09.Gen.GoCommon\nset_option linter.unusedVariables false\nnamespace GeomV.C09.Gen.Go\nopen GeomV.C09\n\n")
+		g.WriteString("/-- `math.IsNaN` of a float that may still hold the NaN `NewSR` put there (`none`) -/\ndef optNaN {α : Type} [RNum α] (o : Option α) : Bool := match o with | none => true | some v => RNum.isNaN v\n")
+		g.WriteString("/-- the value such a float has in arithmetic -/\ndef optNum {α : Type} [RNum α] (o : Option α) : α := o.getD RNum.nan\n\n")
 		pkgFuncs := map[string]bool{"phi2z": true, "imlfn": true, "aeaPhi1z": true}
 		var done, skipped []string
 		find := func(file, name string) *ast.FuncDecl {
@@ -1326,6 +1328,18 @@ func main() {
 				done = append(done, name)
 			}
 		}
+		// constructor bodies (what runs before the closures exist)
+		for _, c := range []struct{ file, ctor string }{{"merc.go", "Merc"}, {"lcc.go", "LCC"}, {"aea.go", "AEA"}, {"eqdc.go", "EqdC"}, {"tmerc.go", "TMerc"}, {"utm.go", "UTM"}, {"krovak.go", "Krovak"}} {
+			fd := find(c.file, c.ctor)
+			name := c.ctor + "_init"
+			s, err := t.ctorInit(name, fd, t.capturedBy(fd))
+			if err != nil {
+				skipped = append(skipped, name+": "+err.Error())
+				continue
+			}
+			g.WriteString(s)
+			done = append(done, name)
+		}
 		for _, m := range []string{"geodetic_to_geocentric", "geocentric_to_wgs84", "geocentric_from_wgs84", "geocentric_to_geodetic"} {
 			fd := find("datum.go", m)
 			name := "datum_" + m
@@ -1346,7 +1360,8 @@ func main() {
 		// what translated when this tool was written must keep translating: otherwise the tie is broken
 		must := []string{"aeaPhi1z", "Merc_forward", "Merc_inverse", "LCC_forward", "LCC_inverse", "AEA_forward", "AEA_inverse",
 			"EqdC_forward", "EqdC_inverse", "TMerc_forward", "Krovak_forward", "datum_geodetic_to_geocentric",
-			"datum_geocentric_to_wgs84", "datum_geocentric_from_wgs84"}
+			"datum_geocentric_to_wgs84", "datum_geocentric_from_wgs84",
+			"Merc_init", "LCC_init", "AEA_init", "EqdC_init", "TMerc_init", "UTM_init", "Krovak_init"}
 		have := map[string]bool{}
 		for _, d := range done {
 			have[d] = true
